@@ -1287,7 +1287,9 @@ fn edge(construct: &str, tag: &str, next: &str) -> String {
 enum Sc {
     /// identifier `name` bound as (type?) variable / program: which wins
     Resolve { name: &'static str, var: bool, prog: bool },
-    VarVsProg,
+    /// `pos`: where the colliding name stands (list element, macro body, call argument,
+    /// f-string, coalesce, list inside a macro body over a constant range)
+    VarVsProg { pos: usize },
     ProgUnderSameBindings,
     Unbound,
     FuncVsType { ty: &'static str },
@@ -1399,7 +1401,9 @@ fn scenarios(thorough: bool) -> Vec<Sc> {
         v.push(Sc::Resolve { name: t, var: false, prog: true });
         v.push(Sc::Resolve { name: t, var: true, prog: true });
     }
-    v.push(Sc::VarVsProg);
+    for pos in 0..6 {
+        v.push(Sc::VarVsProg { pos });
+    }
     v.push(Sc::ProgUnderSameBindings);
     v.push(Sc::Unbound);
     for t in ["int", "uint", "double", "string", "bool", "bytes", "duration", "timestamp", "type"] {
@@ -1558,7 +1562,7 @@ fn build12(sc: &Sc, seed: u64) -> WorldCase {
             let _ = type_value(name);
             expect(&mut ops, &mut r, "main", Want::AnyType);
         }
-        Sc::VarVsProg => {
+        Sc::VarVsProg { pos } => {
             label = "resolve-variable-before-program".into();
             let n = *r.pick(&["x0", "q", "cfg"]);
             if r.chance(1, 2) {
@@ -1569,7 +1573,7 @@ fn build12(sc: &Sc, seed: u64) -> WorldCase {
                 add(&mut ops, n, tag("prog", n, uniq).render());
             }
             ops.push(Op { t: t_exec, k: OpK::BindFunc { b: 0, name: "idf".into(), ret: V::Other("arg0".into()) } });
-            let src = match r.usize(6) {
+            let src = match *pos {
                 5 => format!("[1, 2].map(v, [v, {}])[1][1]", n),
                 0 => format!("[{}, 1][0]", n),
                 1 => format!("[1].map(v, {})[0]", n),
